@@ -414,6 +414,23 @@ func c04Pool(p *Prog, res *Result) {
 						walk([]ast.Stmt{e}, append(append([]ast.Expr{}, conds...), neg))
 					}
 				}
+			case *ast.SwitchStmt:
+				// a tagless switch is the same chain of alternatives
+				if y.Tag == nil && y.Init == nil {
+					cur := append([]ast.Expr{}, conds...)
+					for _, cc := range y.Body.List {
+						cl, ok := cc.(*ast.CaseClause)
+						if !ok || len(cl.List) > 1 {
+							continue
+						}
+						if len(cl.List) == 1 {
+							walk(cl.Body, append(append([]ast.Expr{}, cur...), splitOp(cl.List[0], token.LAND)...))
+							cur = append(cur, &ast.UnaryExpr{Op: token.NOT, X: cl.List[0]})
+						} else {
+							walk(cl.Body, cur)
+						}
+					}
+				}
 			case *ast.RangeStmt:
 				walk(y.Body.List, conds)
 			case *ast.ForStmt:
@@ -1081,5 +1098,58 @@ func c04Rec(p *Prog, res *Result) {
 		}
 		return true
 	})
+	if !okNM {
+		// the same through a pure helper: X.NUMAMemory = f(X.NUMANode, X.MemoryRequest) with
+		// f(node, mem) = NUMAMemory{node: mem} when node is non-empty, nil otherwise
+		site.owner.inspectBody(func(n ast.Node) bool {
+			as, ok := n.(*ast.AssignStmt)
+			if !ok || len(as.Lhs) != 1 || len(as.Rhs) != 1 || !strings.HasSuffix(exprStr(as.Lhs[0]), ".NUMAMemory") {
+				return true
+			}
+			c, ok := unparen(as.Rhs[0]).(*ast.CallExpr)
+			if !ok || len(c.Args) != 2 || !strings.HasSuffix(exprStr(c.Args[0]), "NUMANode") || !strings.HasSuffix(exprStr(c.Args[1]), "MemoryRequest") {
+				return true
+			}
+			H := p.ByObj[site.owner.Callee(c)]
+			if H == nil || H.Body == nil || H.Pkg != site.owner.Pkg {
+				return true
+			}
+			pn, pm := H.paramObj(0), H.paramObj(1)
+			inspectNoLit(H.Body, func(y ast.Node) bool {
+				rt, ok := y.(*ast.ReturnStmt)
+				if !ok || len(rt.Results) != 1 {
+					return true
+				}
+				cl, ok := unparen(rt.Results[0]).(*ast.CompositeLit)
+				if !ok || len(cl.Elts) != 1 {
+					return true
+				}
+				kv, ok := cl.Elts[0].(*ast.KeyValueExpr)
+				if !ok || H.objOf(kv.Key) != pn || H.objOf(kv.Value) != pm || pn == nil || pm == nil {
+					return true
+				}
+				// reached exactly when the node id is non-empty
+				if conds, ok := pathConds(H.Body, rt); ok {
+					for _, cd := range conds {
+						if kind, x, yv, ok := normCmp(cd.Expr, cd.Pos); ok && kind == "lt" {
+							// 0 < len(node)
+							if k, isC := H.constInt(x); isC && k == 0 {
+								if lc, ok := yv.(*ast.CallExpr); ok && isBuiltinCall(H, lc, "len") && len(lc.Args) == 1 && H.objOf(lc.Args[0]) == pn {
+									okNM = true
+								}
+							}
+						}
+						if be, ok := unparen(cd.Expr).(*ast.BinaryExpr); ok && be.Op == token.NEQ && cd.Pos && H.objOf(be.X) == pn {
+							if s, isS := H.constString(be.Y); isS && s == "" {
+								okNM = true
+							}
+						}
+					}
+				}
+				return true
+			})
+			return true
+		})
+	}
 	res.check(okNM, "REC", fn.Name+" / a workload placed on a NUMA node books its memory on that node", p.pos(fn.Decl), "if NUMANode != \"\" { NUMAMemory = {NUMANode: MemoryRequest} }", "the workload's memory is not booked as NUMA memory of the node it was placed on: the node's NUMA memory can be handed out again")
 }
